@@ -208,7 +208,7 @@ SAN_RE = [
     (re.compile(r'([\w./-]+:\d+):\d+: runtime error: (.*)'), 'ubsan'),
     (re.compile(r'WARNING: ThreadSanitizer: ([\w -]+?) \('), 'tsan'),
 ]
-FRAME_RE = re.compile(r'#\d+ 0x[0-9a-f]+ in (\S+) (\S+)')
+FRAME_RE = re.compile(r'#\d+ 0x[0-9a-f]+ in (\S+) (\S+)|#\d+ (\S+) (\S+) \(')
 
 
 def sanitizer_signature(text):
@@ -225,7 +225,7 @@ def sanitizer_signature(text):
     if not kind:
         return None
     for m in FRAME_RE.finditer(text, pos):
-        fn, loc = m.group(1), m.group(2)
+        fn, loc = (m.group(1), m.group(2)) if m.group(1) else (m.group(3), m.group(4))   # second form: ThreadSanitizer frames
         if any(x in loc for x in ('/compiler-rt/', 'libc.so', 'asan_', 'sanitizer_common')) or fn.startswith('__interceptor') or fn.startswith('__asan') or fn in ('malloc', 'calloc', 'realloc', 'free', 'memcpy', 'memcmp', 'strlen', 'strcasecmp', 'memmove', 'memset'):
             continue
         if fn.startswith('__wrap_') or fn.startswith('vf::') or 'harness' in loc:
